@@ -102,6 +102,9 @@ class OrderMonitor:
         return ev
 
 
+SPELLINGS = ["127.0.0.1", "pinned.test", "127.0.0.1", "Pinned.Test", "127.0.0.1", "PINNED.TEST", "pinned.TEST"]
+
+
 def run(ctx):
     from cryptography import x509
 
@@ -140,7 +143,8 @@ def run(ctx):
     situations = ["pinned-same", "unpinned", "changed", "unparsable", "redirect-to-changed"]
     modes = ["eager", "lazy", "after-client-done"]
     try:
-        with peers.ScriptedPeer(idents["good"], behaviour, name="main") as peer, peers.ScriptedPeer(idents["good"], behaviour, name="second") as peer2, OrderMonitor() as mon:
+        with peers.ScriptedPeer(idents["good"], behaviour, name="main") as peer, peers.ScriptedPeer(idents["good"], behaviour, name="second") as peer2, \
+                peers.HostMap({"pinned.test": "127.0.0.1"}), OrderMonitor() as mon:
             k = 0
             for situation in situations:
                 for op, size in ops:
@@ -158,25 +162,30 @@ def run(ctx):
                         state.update(mode=mode, redirect_to=None)
                         state["go"].clear()
                         target_peer = peer
+                        # how the URL (and the redirect target) spells the host; the pin was made under the
+                        # canonical lower-case name, as an earlier visit would have stored it
+                        spelled = SPELLINGS[k % len(SPELLINGS)]
+                        pin_host = spelled.lower()
+                        ctx.count("host_spelling", "ip" if spelled[0].isdigit() else ("lower" if spelled == pin_host else "mixed-or-upper"))
                         if situation == "pinned-same":
-                            db.trust("127.0.0.1", peer.port, good)
+                            db.trust(pin_host, peer.port, good)
                         elif situation == "changed":
-                            db.trust("127.0.0.1", peer.port, good)
+                            db.trust(pin_host, peer.port, good)
                             peer.swap_cert(idents["other"])
                         elif situation == "unparsable":
-                            db.trust("127.0.0.1", peer.port, good)
+                            db.trust(pin_host, peer.port, good)
                             peer.swap_cert(idents["tampered"])
                         elif situation == "redirect-to-changed":
                             if op != "get":
                                 continue
-                            db.trust("127.0.0.1", peer.port, good)
-                            db.trust("127.0.0.1", peer2.port, good)
+                            db.trust(pin_host, peer.port, good)
+                            db.trust(pin_host, peer2.port, good)
                             peer2.swap_cert(idents["other"])
-                            state["redirect_to"] = f"gemini://127.0.0.1:{peer2.port}/secret?session=TOPSECRET"
+                            state["redirect_to"] = f"gemini://{spelled}:{peer2.port}/secret?session=TOPSECRET"
                             target_peer = peer2
                         n0 = len(target_peer.log)
                         path = "/redir" if situation == "redirect-to-changed" else "/private/path"
-                        url = f"gemini://127.0.0.1:{peer.port}{path}" + ("?q=SECRETQUERY" if op == "get-query" else "")
+                        url = f"gemini://{spelled}:{peer.port}{path}" + ("?q=SECRETQUERY" if op == "get-query" else "")
                         content = bytes((i * 31) & 0xFF for i in range(size or 0))
                         mon.take()
 
